@@ -1,0 +1,8 @@
+//go:build !verif
+
+// Package verifhook provides named schedule points for the external
+// verification harness. Without the build tag "verif" they compile to nothing.
+package verifhook
+
+// At marks a schedule point (no-op in normal builds).
+func At(string) {}
